@@ -441,6 +441,11 @@ class FloorTracer:
             o.set_upstream([m.dev[u] for u in c['ups']])
         elif call == 'noise':
             o.add_value('noise', c.get('arg', 1))
+        elif call == 'partnoise':
+            # the part waiting in the source's output (its routing history is the source alone) changes its value
+            for p in self.parts:
+                if not isinstance(p, self.Batch) and list(p.routing_history) == [o]:
+                    p.add_value('noise', c.get('arg', 1))
         else:
             raise ValueError(call)
 
@@ -458,6 +463,8 @@ class FloorTracer:
         try:
             self.m.system.simulate(d, trace=True, print_summary=False)
             path = os.path.join(home, 'Downloads', '%s_trace.json' % self.env.name)
+            if not os.path.exists(path):
+                return [[-1, 0, 'missing', 0]]        # nothing was exported: not what was dispatched
             with open(path) as fh:
                 data = _json.load(fh)
         finally:
